@@ -20,7 +20,8 @@ pub static DEF: CheckDef = CheckDef {
            1..2, conv->conv), input unbatched / batch 1 / batch 2..4 with the batch size changing between iterations, \
            learning rates {0, .01, .1, .5}, 2..12 iterations (thorough up to 50), a fresh random batch every \
            iteration, occasional double backward before update; family disturbed: the same loops with what user code may do between \
-           iterations - a forward call on another batch whose result is abandoned, the Model dropped and rebuilt over \
+           iterations - a forward call on another batch whose result is abandoned (before the iteration's own forward, or between its \
+           backward and update), the Model dropped and rebuilt over \
            the same layers after freezing / unfreezing parameters (stop_tracking / start_tracking through \
            Layer::parameters()) or replacing one by a new array: frozen parameters must reach the optimizer without a \
            gradient and stay bit-identical, all others still step along the exact gradient. Non-trivial = >= 2 iterations with lr > 0; distinct = \
@@ -37,7 +38,7 @@ fn families(t: Tier) -> Vec<(&'static str, u64)> {
     vec![("training", t.n(2_500, 250_000)), ("disturbed", t.n(1_500, 150_000))]
 }
 fn floors(_t: Tier) -> Vec<(&'static str, u64)> {
-    vec![("evaluations", 400), ("iterations_checked", 1_500), ("parameter_gradients_compared", 4_000), ("conv_histories", 60), ("batched_histories", 150), ("disturbed_iterations_checked", 600), ("frozen_parameters_checked", 150), ("iterations_after_abandoned_forward", 150), ("iterations_after_parameter_edit", 100)]
+    vec![("evaluations", 400), ("iterations_checked", 1_500), ("parameter_gradients_compared", 4_000), ("conv_histories", 60), ("batched_histories", 150), ("disturbed_iterations_checked", 600), ("frozen_parameters_checked", 150), ("iterations_after_abandoned_forward", 150), ("iterations_after_parameter_edit", 100), ("iterations_with_forward_before_update", 150)]
 }
 
 pub fn run_case(ctx: &mut Ctx, fam: &str, _k: u64, r: &mut Rng) {
@@ -80,6 +81,14 @@ pub fn run_case(ctx: &mut Ctx, fam: &str, _k: u64, r: &mut Rng) {
                 }
                 iterations[t].abandoned_forward = Some(if r.chance(1, 3) && s.in_dims == iterations[t].input.dims { iterations[t].input.clone() } else { gen_input(r, &s, false) });
                 notes.push(format!("{}:abandoned-forward", t));
+            }
+            if r.chance(1, 5) {
+                let mut s = spec.clone();
+                if has_batch {
+                    s.in_dims[0] = r.range(1, 4);
+                }
+                iterations[t].late_forward = Some(gen_input(r, &s, false));
+                notes.push(format!("{}:forward-between-backward-and-update", t));
             }
             if t >= 1 && r.chance(1, 3) {
                 let mut freeze = vec![None; n_params];
@@ -169,6 +178,9 @@ pub fn run_case(ctx: &mut Ctx, fam: &str, _k: u64, r: &mut Rng) {
                 pa[*k] = Obs { dims: e.dims.clone(), vals: if IS_F32 { e.vals().iter().map(|x| *x as f32 as f64).collect() } else { e.vals() } };
             }
             ctx.count("iterations_after_parameter_edit", rb.edits.len() as u64);
+        }
+        if it.late_forward.is_some() {
+            ctx.count("iterations_with_forward_before_update", 1);
         }
         if it.abandoned_forward.is_some() {
             ctx.count("iterations_after_abandoned_forward", 1);
